@@ -32,9 +32,52 @@ def classify_value_error(e):
     return ("perr", "ValueError:number")
 
 
+class _TimeUp(BaseException):
+    """the implementation did not return within the per-input time limit"""
+
+
+class time_limit:
+    """per-input watchdog (SIGALRM, main thread of the calling process): tokenizing or parsing one
+    short input takes microseconds; an input that keeps the implementation busy for seconds is
+    reported as non-termination (`internal: Timeout`) instead of hanging the check"""
+
+    def __init__(self, seconds):
+        self.seconds = seconds
+
+    def __enter__(self):
+        import signal
+        self.signal = signal
+
+        def on_alarm(signum, frame):
+            raise _TimeUp()
+        try:
+            self.old = signal.signal(signal.SIGALRM, on_alarm)
+            self.prev = signal.setitimer(signal.ITIMER_REAL, self.seconds)
+            self.armed = True
+        except ValueError:      # not in the main thread: no watchdog
+            self.armed = False
+        return self
+
+    def __exit__(self, *exc):
+        if self.armed:
+            self.signal.setitimer(self.signal.ITIMER_REAL, 0)
+            self.signal.signal(self.signal.SIGALRM, self.old)
+            # re-arm an outer alarm (the check's own budget) if there was one
+            if self.prev and self.prev[0] > 0:
+                self.signal.setitimer(self.signal.ITIMER_REAL, max(self.prev[0] - self.seconds, 1.0))
+        return False
+
+
+def _limit_for(text):
+    return 2.0 + len(text) / 1000.0
+
+
 def impl_tok(text, pad):
     try:
-        toks = T.Tokenizer(exclude_padding=not pad).tokenize(text)
+        with time_limit(_limit_for(text)):
+            toks = T.Tokenizer(exclude_padding=not pad).tokenize(text)
+    except _TimeUp:
+        return ("internal", "Timeout")
     except ValueError as e:
         return classify_value_error(e)
     except Exception as e:  # noqa
@@ -44,7 +87,10 @@ def impl_tok(text, pad):
 
 def impl_parse(text):
     try:
-        tree = P.ExpressionParser().parse(text)
+        with time_limit(_limit_for(text)):
+            tree = P.ExpressionParser().parse(text)
+    except _TimeUp:
+        return ("internal", "Timeout")
     except P.ParserException as e:
         name = type(e).__name__
         return ("perr", name if name in PARSE_EXC else "internal:" + name)
